@@ -64,7 +64,7 @@ func (lruComp) NewRunner(begin string) Runner {
 func (r *lruRunner) Close() {}
 
 func (r *lruRunner) dump() string {
-	return fmt.Sprintf("keys=%s len=%d bytes=%d", hexList(r.c.Keys()), r.c.Len(), r.c.SizeInBytesContained())
+	return fmt.Sprintf("keys=%s len=%d bytes=%d", hexList(takeKeys(r.c.Keys())), r.c.Len(), r.c.SizeInBytesContained())
 }
 
 // collect handler invocations of the last call: wait for `want` of them, then give stragglers a chance
@@ -123,7 +123,7 @@ func (r *lruRunner) refTouch(i int) {
 }
 
 func (r *lruRunner) compareRef(where string) {
-	keys := r.c.Keys()
+	keys := takeKeys(r.c.Keys())
 	ok := len(keys) == len(r.ref)
 	if ok {
 		for i := range keys {
